@@ -514,7 +514,7 @@ def check(rep: Report, tier: str, seed: int) -> None:
     drift_oracle(rep, rng, 2 if q else 60)
     average_oracle(rep, rng, 12 if q else 240, 3 if q else 8)
     normalised_state_oracle(rep, rng, 8 if q else 120)
-    if rep.broken and not rep.failing:
+    if rep.broken and not rep.unknown_failing():
         # deeper search on the real code only
         jump_tape(rep, rng, 60 if q else 600, drv)
         drift_oracle(rep, rng, 10 if q else 100)
